@@ -601,12 +601,18 @@ def update_wrapper(wrapper, func, injected=None, expected=None, build_from=None,
     for arg, default in expected_items:
         fb.add_arg(arg, default)  # may raise ExistingArgument
 
-    if fb.is_async:
-        fb.body = 'return await _call(%s)' % fb.get_invocation_str()
-    else:
-        fb.body = 'return _call(%s)' % fb.get_invocation_str()
+    # the name the wrapper is bound to in the generated source must not be
+    # shadowed by a parameter (or rebound by the def statement itself)
+    call_name = '_call'
+    while call_name in (fb.args + fb.kwonlyargs + [fb.varargs, fb.varkw, fb.name]):
+        call_name += '_'
 
-    execdict = dict(_call=wrapper, _func=func)
+    if fb.is_async:
+        fb.body = f'return await {call_name}({fb.get_invocation_str()})'
+    else:
+        fb.body = f'return {call_name}({fb.get_invocation_str()})'
+
+    execdict = {call_name: wrapper, '_func': func}
     fully_wrapped = fb.get_func(execdict, with_dict=update_dict)
     if getattr(func, '__doc__', None) is None:
         fully_wrapped.__doc__ = None  # FunctionBuilder turns a missing docstring into ''
